@@ -36,7 +36,7 @@ PROBES = ["dirty_round_joined", "dirty_round_skipped_no_pruning", "optimality_fi
           "dirty_round_failed_and_swallowed", "final_round_fault_propagated", "threshold_retry",
           "memories_untracked_by_make", "memories_untracked_by_join",
           "unordered_permuted", "w1_runs", "wN_runs", "ru_metric_scenarios", "multi_row_fronts",
-          "finite_glb_scenarios"]
+          "finite_glb_scenarios", "staged_on_combinable_pmappings"]
 REAL_VS_STUB = {
     "real": ["make_pmappings, compress/decompress, multi_strategy_join, join_strategy_2, join_pmappings, "
              "OptimalityThresholder, prune_with_tolerance, PmappingGroup/PmappingDataframe merges, pareto kernels",
@@ -81,10 +81,18 @@ def gen_scenario(seed, k):
     p = specgen.gen_params(r, want_multi=True)
     p["rf"] = False
     # bias towards finite GlobalBuffer near the fused working set, graded costs
-    if r.random() < 0.7:
-        M, N, n, bits = p["M"], p["N"], p["n_einsums"], p["bits"]
+    M, N, n, bits = p["M"], p["N"], p["n_einsums"], p["bits"]
+    u = r.random()
+    if u < 0.45:
         ws = max((M * N[i] + N[i] * N[i + 1] + M * N[i + 1]) * bits for i in range(n))
         p["glb_size"] = max(bits, round(ws * r.choice([0.4, 0.6, 0.8, 0.9, 1.0, 1.05, 1.2, 1.6, 2.2])))
+    elif u < 0.85:
+        # join-level capacity binds when the buffer holds roughly one to two tensors: every
+        # pmapping fits on its own, a fused combination does not
+        tb = max([M * x for x in N] + [N[i] * N[i + 1] for i in range(n)]) * bits
+        p["glb_size"] = max(bits, round(tb * r.choice([0.75, 1.0, 1.25, 1.5, 1.75, 2.0, 2.5, 3.0])))
+    if r.random() < 0.35:
+        p["names"] = r.choice([["DRAM", "DRAMCache", "DRAMCacheL0", "PE"], ["Mem", "Mem2", "Mem2x", "Mem2xALU"]])
     if r.random() < 0.6:
         p["main_energy"] = r.choice([50, 100, 200])
     runs = []
@@ -101,6 +109,10 @@ def gen_scenario(seed, k):
             "fault": r.choice([None, None, None, "dirty", "dirty", "final"]),
             "fault_pos": r.randrange(0, 1000),
             "fault_kind": r.choice(["exception", "worker_death", "memory"]),
+            # the public two-stage API also allows joining pmappings made with
+            # can_combine_multiple_runs=True (every memory tracked by the make stage, so the join
+            # stage's own memory skipping has real work to do)
+            "staged_input": r.choice(["normal", "normal", "combinable"]),
         })
     return {"params": p, "runs": runs, "aux_seed": r.getrandbits(32)}
 
@@ -364,6 +376,8 @@ def staged_join(pm_bytes, params, cfg, tape):
 
 def check_run(exact, pm_bytes, params, cfg, tape):
     """-> (classes {class: detail}, sim, tracker, fault_fired)"""
+    if isinstance(pm_bytes, dict):
+        pm_bytes = pm_bytes[cfg.get("staged_input", "normal")]
     front, err, sim, tr = staged_join(pm_bytes, params, cfg, tape)
     fired = tr.state["fault_fired"]
     classes = {}
@@ -429,6 +443,7 @@ def run_seed(seed, ctx):
     try:
         pm_bytes, pm_exact_bytes, spec, info = make_inputs(params, workdir)
         exact, n_rows = exact_join(pm_exact_bytes, params)
+        pm_bytes = {"normal": pm_bytes, "combinable": pm_exact_bytes}
     except Exception as e:
         bump({"ref_error_scenarios": 1})
         res["events_sha"] = "ref_error:" + type(e).__name__
@@ -448,7 +463,8 @@ def run_seed(seed, ctx):
         res["sim_seconds"] += sim.now
         bump({kk: v for kk, v in sim.stats.items() if kk != "pickled_bytes"})
         bump(tr.counters)
-        bump({"w1_runs": int(cfg["W"] == 1), "wN_runs": int(cfg["W"] > 1)})
+        bump({"w1_runs": int(cfg["W"] == 1), "wN_runs": int(cfg["W"] > 1),
+              "staged_on_combinable_pmappings": int(cfg.get("staged_input") == "combinable")})
         shas.append(tape.event_digest())
         sig = sim.delivery_signature()
         res["interleavings"].append(hashlib.sha1(repr(sig).encode()).hexdigest()[:16])
@@ -496,6 +512,8 @@ def _simplify(sc):
         return dict(sc, runs=runs[:-1] + [dict(cfg, **kw)])
     if cfg.get("fault"):
         yield w(fault=None)
+    if cfg.get("staged_input") == "combinable":
+        yield w(staged_input="normal")
     if cfg["clock_jumpy"]:
         yield w(clock_jumpy=False)
     if cfg["cache_mode"] != "keep":
@@ -517,6 +535,7 @@ def replay(rp, ctx):
     params = sc["params"]
     pm_bytes, pm_exact_bytes, spec, info = make_inputs(params, workdir)
     exact, _ = exact_join(pm_exact_bytes, params)
+    pm_bytes = {"normal": pm_bytes, "combinable": pm_exact_bytes}
     classes, sim, tr, fired, t = exec_prefix(exact, pm_bytes, params, sc, rp["tape"])
     return {"violations": [{"class": c, "key": c, "detail": d} for c, d in classes.items()],
             "events_sha": t.event_digest()}
